@@ -1,5 +1,183 @@
-"""C01.G1/G2/L2 — recogniser extraction (filled in by the E2 engine)."""
+"""C01.G1 / G2 — token-level language of the parser vs the reference grammar."""
+import ast
+
+from .. import extract, rx
+from ..model import AnalysisError
+from ..spec import grammar as ref
+
+PARSER = "py_gql.lang.parser"
+
+
+def normalise(r, first, dead):
+    """Replace anchor symbols that carry look-ahead knowledge: knowledge ⊇ FIRST(anchor) -> plain anchor,
+    disjoint -> dead path, partial overlap -> analysis error."""
+    k = r[0]
+    if k == "sym":
+        atoms = set()
+        for a in r[1]:
+            if isinstance(a, tuple) and a and a[0] == "NT" and len(a) > 3:
+                key = (a[1], a[2])
+                know = a[4]
+                if first[key] <= know:
+                    atoms.add(("NT", a[1], a[2]))
+                elif not (first[key] & know):
+                    dead.append(key)
+                else:
+                    raise AnalysisError("C01.G1: anchor %s is entered with look-ahead knowledge that only partially overlaps its FIRST set" % (key,))
+            else:
+                atoms.add(a)
+        return rx.sym(atoms, r[2])
+    if k == "cat":
+        return rx.cat(*[normalise(x, first, dead) for x in r[1]])
+    if k == "alt":
+        return rx.alt(*[normalise(x, first, dead) for x in r[1]])
+    if k == "star":
+        return rx.star(normalise(r[1], first, dead))
+    return r
+
+
+def atom_text(a, g):
+    if isinstance(a, tuple) and a[0] == "NT":
+        name = {"parse_selection_set": "<SelectionSet>", "parse_type_reference": "<Type>"}.get(a[1])
+        if name is None:
+            name = "<Value[Const]>" if a[2] == (True,) else "<Value>"
+        return name
+    if isinstance(a, tuple):
+        cls, val = a
+        if val == extract.OTHER:
+            return {"Name": "name", "String": '"str"', "BlockString": '"""str"""', "Integer": "1", "Float": "1.0"}.get(cls, cls)
+        return {"Name": val, "String": '"%s"' % val, "BlockString": '"""%s"""' % val}.get(cls, "%s[%s]" % (cls, val))
+    tv = {"SOF": "<SOF>", "EOF": "<EOF>", "ExclamationMark": "!", "Dollar": "$", "ParenOpen": "(", "ParenClose": ")", "BracketOpen": "[",
+          "BracketClose": "]", "CurlyOpen": "{", "CurlyClose": "}", "Colon": ":", "Equals": "=", "At": "@", "Pipe": "|", "Ampersand": "&", "Ellip": "..."}
+    return tv.get(a, str(a))
 
 
 def check(prog, run):
-    return
+    g = extract.Grammar(prog)
+    try:
+        R = ref.Reference(g)
+    except KeyError as e:
+        raise AnalysisError("C01.G1: %s" % e)
+    first = R.first()
+    alphabet = sorted(g.atoms, key=str) + [("NT",) + k for k in first]
+
+    r = run.rule("G1", "for each entry point and flag combination, and for each recursion anchor (SelectionSet, Value[Const], "
+                       "Value, Type), the token language accepted by the parser (extracted by abstract interpretation of "
+                       "Parser.parse_* into a regular expression, everything inlined except the anchors) equals the June-2018 "
+                       "grammar + documented extensions (reference regular expressions); decided by product-DFA equivalence with a "
+                       "shortest distinguishing token string as witness", 10)
+    jobs = []
+    base_cfg = dict(_allow_type_system=False, _experimental_fragment_variables=False)
+    jobs.append(("SelectionSet", "parse_selection_set", (), base_cfg, R.selection_set(), "method"))
+    jobs.append(("Value[Const]", "parse_value_literal", (True,), base_cfg, R.value(True), "method"))
+    jobs.append(("Value", "parse_value_literal", (False,), base_cfg, R.value(False), "method"))
+    jobs.append(("Type", "parse_type_reference", (), base_cfg, R.type_reference(), "method"))
+    for ats in (False, True):
+        for fv in (False, True):
+            cfg = dict(_allow_type_system=ats, _experimental_fragment_variables=fv)
+            jobs.append(("Document[allow_type_system=%s, experimental_fragment_variables=%s]" % (ats, fv), "parse_document", (), cfg, R.document(ats, fv), "method"))
+    jobs.append(("parse_value()", "parse_value", (), base_cfg, R.standalone_value(), "function"))
+    jobs.append(("parse_type()", "parse_type", (), base_cfg, R.standalone_type(), "function"))
+    for label, name, args, cfg, reference, kind in jobs:
+        it = extract.Interp(g, cfg)
+        try:
+            impl = it.method_rx(name, args) if kind == "method" else it.function_rx(name)
+        except extract.Unsupported as e:
+            raise AnalysisError("C01.G1: cannot extract %s: %s" % (label, e))
+        dead = []
+        impl = normalise(impl, first, dead)
+        res = rx.equivalent(impl, reference, alphabet)
+        r.instance("%s: %s" % (label, "equivalent" if res is None else "DIFFERS"))
+        if res is not None:
+            witness, side = res
+            text = " ".join(atom_text(a, g) for a in witness)
+            what = ("accepted by the parser but not derivable from the grammar" if side == "impl-only"
+                    else "derivable from the grammar but rejected by the parser")
+            run.report(r, "%s:Parser:%s:%s(%s)" % (PARSER, label, side, text), "src/py_gql/lang/parser.py",
+                       "%s: the token string `%s` is %s" % (label, text, what), {"witness": [str(a) for a in witness], "side": side})
+
+    # ---- G2 primitive contracts
+    r = run.rule("G2", "parser primitives have their contract languages: expect(K)=K, expect_keyword(w)=Name[w], skip(K)=K?, "
+                       "many(o,f,c)=o f+ c, any_(o,f,c)=o f* c, delimited_list(d,f)=d? f (d f)*; advance/peek window never loses or "
+                       "duplicates a token", 6)
+    prim = {
+        "many": lambda o, f, c: rx.cat(o, rx.plus(f), c),
+        "any_": lambda o, f, c: rx.cat(o, rx.star(f), c),
+    }
+    # many / any_ / delimited_list are interpreted themselves with symbolic arguments: a probe method is synthesised
+    # by interpreting the combinator body with concrete token classes and a known one-token parse function.
+    it = extract.Interp(g, base_cfg)
+    o, c, d = rx.sym(g.cls_atoms("BracketOpen")), rx.sym(g.cls_atoms("BracketClose")), rx.sym(g.cls_atoms("Pipe"))
+    f = rx.sym(g.cls_atoms("Name"))
+    probes = [
+        ("many", [("cls", "BracketOpen"), ("fn", "parse_name", ()), ("cls", "BracketClose")], rx.cat(o, rx.plus(f), c)),
+        ("any_", [("cls", "BracketOpen"), ("fn", "parse_name", ()), ("cls", "BracketClose")], rx.cat(o, rx.star(f), c)),
+        ("delimited_list", [("cls", "Pipe"), ("fn", "parse_name", ())], rx.cat(rx.opt(d), f, rx.star(rx.cat(d, f)))),
+    ]
+    for name, args, want in probes:
+        try:
+            impl = it.method_rx(name, tuple(args))
+        except extract.Unsupported as e:
+            raise AnalysisError("C01.G2: cannot extract %s: %s" % (name, e))
+        res = rx.equivalent(impl, want, alphabet)
+        r.instance("%s: %s" % (name, "contract holds" if res is None else "DIFFERS"))
+        if res is not None:
+            witness, side = res
+            text = " ".join(atom_text(a, g) for a in witness)
+            run.report(r, "%s:Parser.%s:contract(%s:%s)" % (PARSER, name, side, text), "src/py_gql/lang/parser.py",
+                       "%s([, parse_name, ]) %s `%s`" % (name, "accepts" if side == "impl-only" else "rejects", text))
+    # expect / expect_keyword / skip / peek / advance: structural contracts (the extractor treats them as primitives)
+    P = g.cls
+    checks = {
+        "expect": lambda m: _returns_advance_iff(m, "next_token.__class__ is kind"),
+        "expect_keyword": lambda m: _returns_advance_iff(m, "next_token.__class__ is Name and next_token.value == keyword"),
+        "skip": _skip_contract,
+        "peek": _peek_contract,
+        "advance": _advance_contract,
+    }
+    for name, fn in checks.items():
+        m = P.find_method(name)
+        if m is None:
+            raise AnalysisError("C01.G2: Parser.%s not found" % name)
+        ok, why = fn(m)
+        r.instance("%s: %s" % (name, "contract holds" if ok else why))
+        if not ok:
+            run.report(r, "%s:Parser.%s:contract" % (PARSER, name), m.where(), "Parser.%s does not have its contract shape: %s" % (name, why))
+
+
+def _norm(e):
+    return " ".join(ast.unparse(e).split())
+
+
+def _returns_advance_iff(m, cond_text):
+    body = [s for s in m.node.body if not (isinstance(s, ast.Expr) and isinstance(s.value, ast.Constant))]
+    if len(body) != 3:
+        return False, "expected: bind peek(); if <class test>: return advance(); raise"
+    a, b, c = body
+    if not (isinstance(a, ast.Assign) and _norm(a.value) == "self.peek()"):
+        return False, "first statement is not `x = self.peek()`"
+    if not (isinstance(b, ast.If) and _norm(b.test) == cond_text and len(b.body) == 1 and isinstance(b.body[0], ast.Return)
+            and "self.advance()" in _norm(b.body[0].value) and not b.orelse):
+        return False, "the guard is `%s`, expected `%s` returning advance()" % (_norm(b.test) if isinstance(b, ast.If) else "?", cond_text)
+    if not isinstance(c, ast.Raise):
+        return False, "no raise on mismatch"
+    return True, ""
+
+
+def _skip_contract(m):
+    body = [s for s in m.node.body if not (isinstance(s, ast.Expr) and isinstance(s.value, ast.Constant))]
+    ok = len(body) == 2 and isinstance(body[0], ast.If) and _norm(body[0].test) == "self.peek().__class__ is kind" \
+        and [_norm(s) for s in body[0].body] == ["self.advance()", "return True"] and _norm(body[1]) == "return False"
+    return ok, "expected: if peek().__class__ is kind: advance(); return True / return False"
+
+
+def _peek_contract(m):
+    txt = _norm(m.node)
+    ok = "delta = count - len(self._buffer)" in txt and "self._advance_window(by=delta)" in txt and "return self._buffer[-count]" in txt
+    return ok, "peek(count) must fill the window to `count` tokens and return self._buffer[-count]"
+
+
+def _advance_contract(m):
+    txt = _norm(m.node)
+    ok = "if not self._buffer: self._advance_window()" in txt and "self._last = self._buffer.pop()" in txt and "return self._last" in txt
+    return ok, "advance() must fill an empty window, pop the oldest token into _last and return it"
